@@ -9,4 +9,7 @@ sys.path.append('/verif/pystubs')
 import dask
 dask.config.set({"dataframe.convert-string": False})
 import pytest
-sys.exit(pytest.main(sys.argv[2:] + ['-q', '-p', 'no:cacheprovider', '-x', '--timeout=600']))
+args = sys.argv[2:]
+x = [] if '--no-x' in args else ['-x']
+args = [a for a in args if a != '--no-x']
+sys.exit(pytest.main(args + ['-q', '-p', 'no:cacheprovider', '--timeout=600'] + x))
